@@ -481,3 +481,4 @@ def check(ctx) -> None:
     rule_r3(ctx, pl)
     rule_r4(ctx)
     c07.rule_e1(ctx, "C01-R5")
+    c07.piecewise_findings(ctx, "C01-R5")
